@@ -56,6 +56,8 @@ def generate(rng, tier, index):
         recipe["kernel"] = rng.choice(["matern05", "matern05", "matern15", "rbf", "sum"])
     faulty = index % 3 == 2
     allow = {"fast_pred_var", "detach_test_caches", "max_eager_kernel_size", "lazily_evaluate_kernels"}
+    if recipe["family"] == "kissgp":
+        allow = allow | {"fast_pred_samples"}  # the WISKI caches come in two flavours (root for samples / root for variances)
     if recipe["family"] == "sgpr":
         # an SGPR model can be fantasised when its strategy was created under lazily_evaluate_kernels(False)
         allow = {"fast_pred_var", "lazily_evaluate_kernels", "sgpr_diagonal_correction"}
@@ -407,6 +409,9 @@ def execute(history):
                             % (q, "fantasy model (depth %d)" % node.depth if node.depth else "the source model", "concatenated" if node.depth else "same", diff, scale, tol, bundles.fmt(op.get("bundle", []))),
                             **cls,
                         )
+                elif rm[0] == "exc" and rr[0] == "ok" and rm[1] == "NotImplementedError":
+                    # an explicitly unsupported combination (e.g. a WISKI fantasy under fast_pred_samples without fast_pred_var)
+                    out.stats["rejected:predict_not_implemented_d%d" % min(node.depth, 2)] += 1
                 elif rm[0] == "exc" and rr[0] == "ok":
                     out.violate(
                         "fantasy_raises" if node.depth > 0 else "source_raises",
